@@ -78,7 +78,10 @@ Definition add_key (keys : list pubkey) (k : pubkey) : list pubkey :=
   if existsb (pubkey_eqb k) keys then keys else keys ++ [k].
 
 (* KeymasterPublicKeys after start-up: the file, then the Ed25519 CA, then the signer.
-   None: the daemon refuses to start with these key files. *)
+   None: the daemon refuses to start with these key files (a signer that is neither RSA nor ECDSA,
+   an Ed25519 file holding another key) or - KOther as signer: an ECDSA key on a curve without SSH /
+   JOSE support, e.g. P-224 - starts but can sign nothing, not even a session cookie
+   (publicToPreferedJoseSigAlgo: "invalid pub key"), so no request reaches the code below. *)
 Definition load (kc : keyconf) : option (list pubkey) :=
   if negb (signer_type_ok (pk_type (kc_signer kc))) then None
   else match kc_ed kc with
